@@ -112,6 +112,7 @@ func (dv *Router) advertDataHandler(data ndn.Data) {
 	seqNo := name[len(name)-1].NumberVal()
 
 	// Lock DV state
+	verifGate(dv, "advertData", nil)
 	dv.mutex.Lock()
 	defer dv.mutex.Unlock()
 
